@@ -188,6 +188,9 @@ func VX_C18_regex() {
 		vx.Assume(cell[k] < 0x80)
 	}
 	vx.Check(m.Matches(cell) == ref.MatchString(cell), "regex pattern anchored as documented")
+	for _, probe := range []string{"abc", "ABC", "xabcx", "a", "", "aXc", "(", "ab"} {
+		vx.Check(m.Matches(probe) == ref.MatchString(probe), "regex pattern anchored as documented")
+	}
 	vx.Reach("end")
 }
 
@@ -210,7 +213,12 @@ func VX_C18_regex_seq() {
 		if !cs {
 			expect = "(?i)" + expect
 		}
-		vx.Check(m.Matches(cell) == regexp.MustCompile(expect).MatchString(cell), "each matcher follows its own case rule")
+		ref := regexp.MustCompile(expect)
+		vx.Check(m.Matches(cell) == ref.MatchString(cell), "each matcher follows its own case rule")
+		// concrete probes that tell the case rules apart (natively the real regexp decides)
+		for _, probe := range []string{"abc", "ABC", "aBc", "Ab", "ax", "AX"} {
+			vx.Check(m.Matches(probe) == ref.MatchString(probe), "each matcher follows its own case rule")
+		}
 	}
 	vx.Reach("end")
 }
